@@ -708,9 +708,9 @@ def run(ctx):
         text = str(n)
         frs = set(G.histogram(n))
         in_s1 = frs <= S1
-        # the evaluator model runs every fragment (the quorums too, without theorems); a P2WSH script whose op count
-        # is near the limit AND holds a multi() is left out: the model charges every OP_CHECKMULTISIG, taken or not
-        in_exec = in_s1 or not ("multi" in frs and (n.max_ops or 0) > 170)
+        # the evaluator model runs every fragment and charges the keys of the EXECUTED OP_CHECKMULTISIGs only, as
+        # btclib and Core do: nothing is left out of the stream
+        in_exec = True
         for a in SP.all_avail(n, n.context, rng, limit=ctx.n(12, 40)):
             w = {"expr": text, "context": n.context, "avail": a}
             r = SP.spend_check(text, n.context, a)
@@ -767,6 +767,26 @@ def run(ctx):
         if r.get("produced"):
             exec_lines.append(f"exec P2WSH {sigs} " + ",".join(r["stack"]) + " 0 0 2 " + " ".join(tokens(dn)))
             ctx.count("exec.deep", f"max_ops={dn.max_ops} limits={dn.is_within_resource_limits} engine={r['engine_ok']}")
+    # an OP_CHECKMULTISIG in a branch that is NOT taken charges nothing: or_i(multi(1, 20 keys), and_v chain) around
+    # the 201-op limit, spent through either branch (static count 4d+5; +20 when the multi() runs)
+    mk = ",".join(keys[1 + i % 15] for i in range(20))
+    for depth in (44, 45, 46, 48, 49, 50):
+        chain = f"pk({kx})"
+        for _ in range(depth):
+            chain = f"and_v(v:pkh({kx}),{chain})"
+        expr = f"or_i(multi(1,{mk}),{chain})"
+        dn = M.parse(expr, P2WSH)
+        for ks_av in ([0], [1], [0, 1]):
+            a = {"keys": ks_av, "preimages": [], "locktime": 0, "sequence": 0, "version": 2}
+            r = SP.spend_check(expr, P2WSH, a)
+            if not r.get("produced"):
+                continue
+            sm = SP._signatures(SP._prepare(expr, P2WSH), P2WSH, SP._tx(0, 0, 2), a)
+            sigs = ",".join(f"{k.hex()}:{v.hex()}" for k, v in sorted(sm.items()))
+            exec_lines.append(f"exec P2WSH {sigs} " + ",".join(hx(bytes.fromhex(e)) for e in r["stack"]) + " 0 0 2 "
+                              + " ".join(tokens(dn)))
+            ctx.count("exec.untaken_multi", f"static={r['static_ops']} branch={'multi' if r['stack'][-1] else 'chain'} "
+                      f"engine={r['engine_ok']}")
     for ln in exec_lines:
         tk = set(ln.split(" ")[7:])
         ctx.count("exec.fragments", "with thresh/multi/multi_a" if tk & {"thresh", "multi", "multi_a"} else "covered set only")
